@@ -72,9 +72,12 @@ i = [i1, i2, i1 + 2 * N, i2 + 2 * N, i3, i4, i3 + N, i4 + N]
 j = [j1, j2, k1 + 2 * N, k2 + 2 * N, j3, j4, k3 + N, k4 + N]
 k = [k1, k2, j1 + 2 * N, j2 + 2 * N, k3, k4, j3 + N, j4 + N]
 if phi2 - phi1 != 360:
-    i.extend([i5, i5 + N - 1]); j.extend([k5, k5 + N - 1]); k.extend([j5, j5 + N - 1])
+    i.extend([i5, i5 + N - 1]); j.extend([j5, k5 + N - 1]); k.extend([k5, j5 + N - 1])
 i, j, k = (np.hstack(l) for l in (i, j, k))
 ```
+(since repo fix 64dd71f the START cap is `(i5, j5, k5)`, the END cap `(i5, k5, j5) + N - 1`: the two caps face opposite
+directions; before the fix both used `(i5, k5, j5)` and the start cap was wound against the rest of the surface, see
+`old_start_cap_was_inverted` in Props/C19.)
 Vertex rows: inner top arc `0 … N-1`, outer top `N … 2N-1`, inner bottom `2N … 3N-1`, outer bottom `3N … 4N-1`.
 Nothing is special-cased for `r1 = 0` (the inner arcs are then `N` coincident points on the axis; the indices are
 the same). -/
@@ -99,8 +102,8 @@ def segIJK (N : Nat) (full : Bool) : List Nat × List Nat × List Nat :=
   let j := [j1, j2, sh k1 (2 * N), sh k2 (2 * N), j3, j4, sh k3 N, sh k4 N]
   let k := [k1, k2, sh j1 (2 * N), sh j2 (2 * N), k3, k4, sh j3 N, sh j4 N]
   if full then (i.flatten, j.flatten, k.flatten)
-  else ((i ++ [i5, i5.map (· + N - 1)]).flatten, (j ++ [k5, k5.map (· + N - 1)]).flatten,
-        (k ++ [j5, j5.map (· + N - 1)]).flatten)
+  else ((i ++ [i5, i5.map (· + N - 1)]).flatten, (j ++ [j5, k5.map (· + N - 1)]).flatten,
+        (k ++ [k5, j5.map (· + N - 1)]).flatten)
 
 def segTriangles (N : Nat) (full : Bool) : List Face :=
   let r := segIJK N full
